@@ -24,7 +24,7 @@ ASSUMPTIONS = [
     "real-valued cases with an exit->entry distance (between different particles) within 1e-9 of 0, min_distance or max_distance are filtered (boundary ties); on the integer lattice family exact hits are decidable and kept (only coincident sites are dropped)",
     "object numbers identify chains per tomogram (they restart in every tomogram), so 'chain' = (tomogram, object)",
 ]
-BUDGET = {"quick": {"examples": 700, "seconds": 85}, "thorough": {"examples": 3000, "seconds": 540}}
+BUDGET = {"quick": {"examples": 1400, "seconds": 85}, "thorough": {"examples": 3000, "seconds": 540}}
 
 C = oracle.MOTL_COLUMNS
 IX = {c: i for i, c in enumerate(C)}
